@@ -92,14 +92,16 @@ namespace protobuf_c {
 
 std::string SimpleFtoa(float f) {
   char buf[100];
-  snprintf(buf,sizeof(buf),"%.*g", FLT_DIG, f);
+  /* FLT_DIG digits do not identify a float; FLT_DIG + 3 (= 9) always do */
+  snprintf(buf,sizeof(buf),"%.*g", FLT_DIG + 3, f);
   buf[sizeof(buf)-1] = 0;		/* should NOT be necessary */
   return buf;
 }
 
 std::string SimpleDtoa(double d) {
   char buf[100];
-  snprintf(buf,sizeof(buf),"%.*g", DBL_DIG, d);
+  /* DBL_DIG digits do not identify a double; DBL_DIG + 2 (= 17) always do */
+  snprintf(buf,sizeof(buf),"%.*g", DBL_DIG + 2, d);
   buf[sizeof(buf)-1] = 0;		/* should NOT be necessary */
   return buf;
 }
